@@ -748,7 +748,7 @@ void process_conn(Structure& st, const std::vector<std::string>& conn_records) {
       if (st.models.size() == 1)
         cispep.model_num = st.models[0].num;
       else if (record.length() > 43)
-        cispep.model_num = read_int(r + 43, 3);
+        cispep.model_num = read_int(r + 37, 9);
       if (record.length() > 53)
         cispep.reported_angle = read_double(r + 53, 6);
       st.cispeps.push_back(cispep);
